@@ -367,3 +367,99 @@ pub fn import(text: &str) -> Option<crate::gm::Grammar> {
     g.order = Some(order);
     Some(g)
 }
+
+/// What C12 needs to know about one text.
+#[derive(Debug, Default, Clone)]
+pub struct FrontInfo {
+    pub n_syntax_diags: usize,
+    pub n_sema_diags: usize,
+    pub diags: Vec<LwDiag>,
+    /// first problem found with a label range, if any
+    pub bad_span: Option<String>,
+    /// rendering problem, if any
+    pub render_error: Option<String>,
+    /// lossless-tree problem of the front end's own CST, if any
+    pub cst_error: Option<String>,
+    pub reached_sema: bool,
+}
+
+/// Lex, parse, analyse `text`; validate every label range; render every diagnostic; check that
+/// the front end's own CST is lossless. Panics propagate to the caller (use `catch`).
+pub fn frontend_check(text: &str) -> FrontInfo {
+    use codespan_reporting::files::SimpleFile;
+    use codespan_reporting::term::{self, termcolor::NoColor, Config, DisplayStyle};
+    let mut info = FrontInfo::default();
+    let mut diags = vec![];
+    let cst = Parser::new(text, &mut diags).parse(&mut diags);
+    info.n_syntax_diags = diags.len();
+    let _sema = SemanticPass::run(&cst, &mut diags);
+    info.reached_sema = true;
+    info.n_sema_diags = diags.len() - info.n_syntax_diags;
+    info.diags = diags.iter().map(conv_diag).collect();
+    for d in &info.diags {
+        for l in &d.labels {
+            if l.start > l.end || l.end > text.len() {
+                info.bad_span.get_or_insert(format!("label {}..{} of `{}` outside the text (len {})", l.start, l.end, d.message, text.len()));
+            } else if !text.is_char_boundary(l.start) || !text.is_char_boundary(l.end) {
+                info.bad_span.get_or_insert(format!("label {}..{} of `{}` not on character boundaries", l.start, l.end, d.message));
+            }
+        }
+    }
+    if info.bad_span.is_none() {
+        let file = SimpleFile::new("g.llw", text);
+        for style in [DisplayStyle::Rich, DisplayStyle::Short] {
+            let mut config = Config::default();
+            config.display_style = style;
+            for d in &diags {
+                let mut w = NoColor::new(Vec::new());
+                if let Err(e) = term::emit_to_write_style(&mut w, &config, &file, d) {
+                    info.render_error.get_or_insert(format!("rendering `{}` failed: {e}", d.message));
+                }
+            }
+        }
+    }
+    // lossless CST: token leaves tile the source
+    let mut pos = 0usize;
+    let mut stack = vec![NodeRef::ROOT];
+    let mut leaves = vec![];
+    fn walk(cst: &Cst<'_>, n: NodeRef, leaves: &mut Vec<(usize, usize)>) {
+        match cst.get(n) {
+            lelwel::frontend::parser::Node::Rule(..) => {
+                for c in cst.children(n) {
+                    walk(cst, c, leaves);
+                }
+            }
+            lelwel::frontend::parser::Node::Token(..) => {
+                let s = cst.span(n);
+                leaves.push((s.start, s.end));
+            }
+        }
+    }
+    stack.clear();
+    walk(&cst, NodeRef::ROOT, &mut leaves);
+    for (s, e) in &leaves {
+        if *s != pos {
+            info.cst_error.get_or_insert(format!("token leaves do not tile the source: leaf {s}..{e} follows offset {pos}"));
+            break;
+        }
+        pos = *e;
+    }
+    if info.cst_error.is_none() && pos != text.len() {
+        info.cst_error = Some(format!("token leaves end at {pos}, text has {} bytes", text.len()));
+    }
+    info
+}
+
+/// `format` of the text's CST (panics propagate)
+pub fn format_text(text: &str) -> String {
+    let mut diags = vec![];
+    let cst = Parser::new(text, &mut diags).parse(&mut diags);
+    lelwel::backend::format::format(&cst)
+}
+
+/// number of diagnostics from lexing + parsing only
+pub fn syntax_diag_count(text: &str) -> usize {
+    let mut diags = vec![];
+    let _ = Parser::new(text, &mut diags).parse(&mut diags);
+    diags.len()
+}
